@@ -124,7 +124,15 @@ def _events(args):
                 c2 = E.outcome(lambda: h2.append(mk_f(other_chunk()).liftover_to_parent_or_seq_chunk_parent(chunk)) or 1)
             ev.append(twin_row(FA, h2[0] if h2 else None, blocks, st, None, [], R, ws, we, r2, c2))
         elif kind in ("gene", "collection"):
+            # the second isoform: a sub-structure of the first, or a block beyond it that extends the gene's span
             b2 = blocks[:1]
+            r2 = rnd.random()
+            if r2 < 0.35 and blocks[-1][1] + 1 < G:
+                a2 = rnd.randrange(blocks[-1][1], G - 1)
+                b2 = [[a2, rnd.randrange(a2 + 1, G + 1)]]
+            elif r2 < 0.7 and blocks[0][0] >= 2:
+                e2 = rnd.randrange(1, blocks[0][0] + 1)
+                b2 = [[rnd.randrange(0, e2), e2]]
 
             def mk_gene(par, root):
                 t1 = mk_tx(blocks, st, cds, root, frames=frames, parent=par, transcript_id="tx", sequence_name="chr")
@@ -153,8 +161,8 @@ def _events(args):
                     parent_or_seq_chunk_parent=chunk)) or 1)
                 CB = h3[0] if h3 else None
                 GB = CB.genes[0] if CB is not None else None
-            hull_lo, hull_hi = max(ws, blocks[0][0]), min(we, blocks[-1][1])
-            agg = ["agg", kind, r3, c3, ws, we, [blocks, st], list(R)]
+            allb = sorted(blocks + b2)
+            agg = ["agg", kind, r3, c3, ws, we, [allb, st], list(R)]
             if GB is None:
                 ev.append(agg + [False, False, ["x", "none"], ["x", "none"], ["x", "none"], False])
                 continue
